@@ -26,6 +26,7 @@ import (
 //       sentph/ack-skipped        ACK covering one of the most recent skipped numbers accepted
 //       sentph/ack-old-skipped    ACK covering an older skipped number accepted (replay of the Coq witness
 //                                 C06_ack_any_skipped_refuted; also checked on every generated history)
+//       sentph/ack-valid-rejected an ACK that covers neither unsent nor skipped numbers was rejected as PROTOCOL_VIOLATION
 //       sentph/timer-not-armed    crypto / confirmed app data outstanding, not amplification limited, alarm unset
 //       sentph/panic              the handler panicked
 func init() {
@@ -375,6 +376,9 @@ func (r *sphRun) monitors(o *sphOp, ret int64, before trackedSummary, bifBefore,
 			}
 			if recent < 0 && old >= 0 && !pv {
 				r.monfail("sentph/ack-old-skipped", fmt.Sprintf("ACK covering the skipped packet number %d (skipped numbers so far %v) accepted (code %d)", old, r.skipped, ret))
+			}
+			if recent < 0 && old < 0 && pv {
+				r.monfail("sentph/ack-valid-rejected", fmt.Sprintf("ACK with largest %d <= largest sent %d covering no skipped number was rejected (code %d)", largest, largestSentBefore, ret))
 			}
 		}
 		if len(cbs) > 0 {
